@@ -93,6 +93,10 @@ type provAnalysis struct {
 	scope     []*ssa.Function
 	fstores   map[string][]ssa.Value
 	busyField map[string]bool
+	// row binding: while a value is evaluated "for row k" of a literal table,
+	// reads of the loop element's fields stand for that row's stored values
+	rowElem *ssa.IndexAddr
+	rowBind map[string]ssa.Value
 }
 
 type provKey struct {
@@ -184,6 +188,13 @@ func rootTypeName(t types.Type) string {
 func (pa *provAnalysis) Of(v ssa.Value) provSet { return pa.of(v, nil) }
 
 func (pa *provAnalysis) of(v ssa.Value, ctx *provCtx) provSet {
+	if pa.rowElem != nil {
+		if ia, f, ok := loopElemField(v); ok && ia == pa.rowElem {
+			if bv := pa.rowBind[f]; bv != nil {
+				return pa.of(bv, ctx)
+			}
+		}
+	}
 	if v == nil {
 		return provSet{}
 	}
@@ -262,6 +273,7 @@ func (pa *provAnalysis) addrProv(addr ssa.Value, ctx *provCtx) provSet {
 		if _, isStruct := derefType(a.Type()).Underlying().(*types.Struct); isStruct {
 			pa.storesBelow(a, ctx, out, 0)
 		}
+		out.add(pa.storesThroughTable(a))
 		for _, ref := range *a.Referrers() {
 			if st, ok := ref.(*ssa.Store); ok && st.Addr == ssa.Value(a) {
 				out.add(pa.of(st.Val, ctx))
@@ -866,4 +878,53 @@ func (pa *provAnalysis) mapKeysProv(v ssa.Value, ctx *provCtx, depth int) (provS
 		return out, true
 	}
 	return nil, false
+}
+
+// storesThroughTable: the address of the local was put into a row of a
+// literal table ({&x, source}) and a loop stores through the row's pointer
+// (*row.target = f(row.source)): the provenance of what is stored, evaluated
+// for the rows that point at this local.
+func (pa *provAnalysis) storesThroughTable(al *ssa.Alloc) provSet {
+	out := provSet{}
+	if pa.rowElem != nil || al.Referrers() == nil {
+		return out
+	}
+	escapes := false
+	for _, ref := range *al.Referrers() {
+		if st, ok := ref.(*ssa.Store); ok && st.Val == ssa.Value(al) {
+			escapes = true
+		}
+	}
+	if !escapes {
+		return out
+	}
+	forEachInstr(al.Parent(), func(in ssa.Instruction) {
+		st, ok := in.(*ssa.Store)
+		if !ok {
+			return
+		}
+		ia, f, ok := loopElemField(st.Addr)
+		if !ok {
+			return
+		}
+		var arr *ssa.Alloc
+		switch x := ia.X.(type) {
+		case *ssa.Slice:
+			arr, _ = x.X.(*ssa.Alloc)
+		case *ssa.Alloc:
+			arr = x
+		}
+		if arr == nil {
+			return
+		}
+		for _, row := range tableRows(arr, ia) {
+			if row[f] != ssa.Value(al) {
+				continue
+			}
+			sub := newProv(pa.c)
+			sub.rowElem, sub.rowBind = ia, row
+			out.add(sub.of(st.Val, nil))
+		}
+	})
+	return out
 }
